@@ -253,6 +253,17 @@ def sim_rules(p, ctx):
         oracles.c11(M, ctx)
 
 
+def sim_history(p, ctx):
+    from props.simcore import run_sim_history
+    from props import oracles
+
+    M = run_sim_history(p, ctx, p["mode"])
+    if M.exc is not None:
+        ctx.fail("C11:rule-not-accepted:%s" % ctx.aborted)
+    else:
+        oracles.c11(M, ctx)
+
+
 def integration_obligations(tier):
     """Allocation under contention for every task priority rule (zsym engine)."""
     from props import profiles
@@ -262,6 +273,12 @@ def integration_obligations(tier):
     for ob in profiles.p_resource_rules(thorough, timeout=900 if thorough else 150):
         ob = dict(ob, harness="sim_rules", engine="zsym")
         obs.append(ob)
+    # every task rule must also be accepted on a run that is continued from a saved file (FIFO reads the restored state logs)
+    for rule in range(9):
+        spec = {"tasks": [{"w": "$w%d" % i} for i in range(3)], "edges": [], "teams": [{"targets": [0, 1, 2], "workers": [{"skills": {"0": 1, "1": 1, "2": 1}}]}],
+                "run": {"max_time": 12, "rule": rule}}
+        obs += profiles.with_history([{"name": "alloc/rule=%d/indep/W=1" % rule, "harness": "sim", "cube": {"spec": spec},
+                                       "params": [["w%d" % i, 1, 2] for i in range(3)], "timeout": 900 if thorough else 150, "engine": "zsym"}], "json-resume", 3)
     for rule in range(9):
         for shape, es in (("indep", []), ("fork", [(0, 1, 0), (0, 2, 0)]), ("join", [(0, 2, 0), (1, 2, 0)])):
             for nw in (1, 2, 3):
